@@ -50,7 +50,7 @@ def gen(rng, tier):
         ops = common.DENSE_PAST_OPS if dense else common.PAST_OPS
     future = (not dense) and mode == 'on' and rng.random() < 0.4
     if future:
-        ops = set(ops) | {'eventually_b', 'always_b', 'until_b', 'next'}
+        ops = set(ops) | {'eventually_b', 'always_b', 'until_b', 'unless_b', 'next'}
     ops = set(ops) - {'iff', 'xor'}
     pvc = rng.random() < 0.6
     for _ in range(100):
